@@ -829,7 +829,11 @@ class MacroProgram(ElementProgram):
                 if boolean:
                     value = nodes.Replace(value, name)
             else:
-                default = ast.Constant(text) if text is not None else None
+                # The default value is what the static attribute renders
+                # to on its own, i.e. with the ``$$`` escape applied.
+                default = ast.Constant(
+                    text.replace('$$', '$') if '${' not in text else text
+                ) if text is not None else None
 
                 # If the expression is non-trivial, the attribute is
                 # dynamic (computed).
